@@ -89,6 +89,16 @@ theorem replaceMutOld_witness :
     (replaceMutOld [1, 2] [2, 3]).1 = [2, 3] ∧ foldStep [1, 2] (replaceMutOld [1, 2] [2, 3]).2 = [3] := by
   decide
 
+/-- Why `replace` snapshots its argument: with the live argument read three times, `s.Replace(s)` on
+`{1,2}` (reads: `{1,2}`, `{1,2}`, then `∅` because `value.Replace` has cleared the set) empties the
+set while reporting no change. -/
+theorem replaceMutLive_self_witness :
+    replaceMutLive [1, 2] [1, 2] [1, 2] [] = ([], ([], [])) ∧ foldStep [1, 2] (replaceMutLive [1, 2] [1, 2] [1, 2] []).2 = [1, 2] := by
+  decide
+
+/-- With one consistent snapshot the three reads agree and `replaceMutLive` is `replaceMut`. -/
+theorem replaceMutLive_snapshot (s els : List Nat) : replaceMutLive s els els els = replaceMut s els := rfl
+
 theorem set_entry {init : List Nat} {e : Entry (List Nat) Mut}
     (h : ∃ w, (setObj init).upd e.before w = .change e.after e.note) :
     ∀ x, x ∈ e.after ↔ x ∈ foldStep e.before e.note := by
@@ -108,6 +118,10 @@ theorem set_entry {init : List Nat} {e : Entry (List Nat) Mut}
     injection hw with h1 h2
     rw [← h1, ← h2]; exact applyMut_fold _ _ x
   | replace els =>
+    simp only [setObj, setUpd] at hw
+    injection hw with h1 h2
+    rw [← h1, ← h2]; exact replaceMut_fold _ _ x
+  | replaceView g =>
     simp only [setObj, setUpd] at hw
     injection hw with h1 h2
     rw [← h1, ← h2]; exact replaceMut_fold _ _ x
